@@ -25,7 +25,7 @@ from harness.vlib.core import Ctx, ToolFailure
 if hasattr(sys, "set_int_max_str_digits"):
     sys.set_int_max_str_digits(0)      # big ints travel as decimal text to the Lean driver
 
-MODEL_FILES = ["MypyVerif/Model/Fold.lean", "MypyVerif/Proofs/Fold.lean"]
+MODEL_FILES = ["MypyVerif/Model/Fold.lean", "MypyVerif/Proofs/Fold.lean", "MypyVerif/Gen/FoldCfg.lean"]
 DRIVER = "Driver/C12Fold.lean"
 
 BIN_OPS = ["+", "-", "*", "/", "//", "%", "&", "|", "^", "<<", ">>", "**", "@"]
@@ -743,8 +743,14 @@ def run(ctx: Ctx) -> None:
         " | fold: boundary operand grid (0, ±1, ±2ᵏ±1, random up to 200 bits; bool, str, bytes) × 13 binary + 3 unary " \
         "operators for both folders; random expression trees to depth 3 with Final references; float/complex operands " \
         "against CPython only; `X: Final = expr` through a real build. Non-trivial: an operand other than 0/±1."
+    from translate import c12fold
+    c12fold.main()        # Gen/FoldCfg.lean: dispatch facts of the folder under check (feeds fold_unary_exact_status)
     proved = ctx.prove("MypyVerif.Props.C12Fold", MODEL_FILES)
-    ctx.trusted("fold model: constant_fold_binary_op/_int_op/_unary_op/constant_fold_expr (mypy) and "
+    if c12fold.NOTE:
+        ctx.broken_ties.append(c12fold.NOTE)
+        proved = False
+    ctx.trusted("translator translate/c12fold.py (one observed fact: what `+` returns for a bool operand)",
+                "fold model: constant_fold_binary_op/_int_op/_unary_op/constant_fold_expr (mypy) and "
                 "constant_fold_binary_op_extended/constant_fold_expr (mypyc) on int/bool/str/bytes; float and complex "
                 "arithmetic is not modelled in Lean (correspondence with CPython only)",
                 "CPython semantics model (Fold.pyBin/pyUnary) is compared with the running interpreter on every case",
